@@ -300,5 +300,6 @@ def node_digests(snap) -> dict:
             out[f"{cont}/{uid}:links"] = _h({k: sorted(v) for k, v in node["links"].items()})
     for tk, tnodes in snap.get("types", {}).items():
         for uid, t in tnodes.items():
-            out[f"Types/{tk}/{uid}"] = _h([t["attrs"], t["datasets"]])
+            out[f"Types/{tk}/{uid}:attrs"] = _h(t["attrs"])
+            out[f"Types/{tk}/{uid}:datasets"] = _h(t["datasets"])
     return out
